@@ -108,7 +108,11 @@ func (e *codedErr) ExitCode() int { return 3 }
 func (e *codedErr) ExitStatus() int { return 3 }
 func (e *codedErr) Code() int { return 3 }
 
-var panicKinds = []string{"error value", "user error type with ExitCode()/ExitStatus()/Code() methods", "int", "string", "nil-pointer of a user error type"}
+var panicKinds = []string{"error value", "user error type with ExitCode()/ExitStatus()/Code() methods", "int", "string", "nil-pointer of a user error type",
+	// panic(nil): under the language version of the library's go.mod recover() returns nil for it, so a library can
+	// legitimately take the hook for one that returned, or (with a completed-flag) for one that failed; judged
+	// weakly: the calls are those of one of these two readings, in order, each hook at most once
+	"untyped nil"}
 
 func panicValue(kind int, i int, name string) interface{} {
 	switch kind {
@@ -171,6 +175,9 @@ func oneFlowX(c *Ctx, d int, vec []int, pol int, pk int, xk int) {
 		case ref.HReturns:
 			return func() { log = append(log, name) }
 		case ref.HPanics:
+			if pk == 5 {
+				return func() { log = append(log, name); panic(nil) }
+			}
 			vals[i] = panicValue(pk, i, names[i])
 			return func() { log = append(log, name); panic(vals[i]) }
 		case ref.HFaults:
@@ -252,6 +259,23 @@ func oneFlowX(c *Ctx, d int, vec []int, pol int, pk int, xk int) {
 	}
 	c.Count(fmt.Sprintf("depth_%d", d), 1)
 
+	if pk == 5 {
+		asReturns := append([]int{}, vec...)
+		for i, v := range asReturns {
+			if v == ref.HPanics {
+				asReturns[i] = ref.HReturns
+			}
+		}
+		expB := ref.Flow(d, asReturns)
+		got := strings.Join(log, " ")
+		if got != strings.Join(exp.Log, " ") && got != strings.Join(expB.Log, " ") && c.On("C05") {
+			c.Violation("C05", fmt.Sprintf("flow depth=%d vec=%s policy=%d%s", d, describeVec(names, vec), pol, pkText(pk)+xkText(xk)),
+				Case{"depth": d, "vec": append([]int{}, vec...), "policy": pol, "panic_kind": pk, "exit_kind": xk},
+				fmt.Sprintf("calls=[%s] (panic(nil) taken as a failure) or calls=[%s] (taken as a return), each hook at most once", strings.Join(exp.Log, " "), strings.Join(expB.Log, " ")),
+				fmt.Sprintf("calls=[%s]", got))
+		}
+		return
+	}
 	var bad []string
 	if strings.Join(log, " ") != strings.Join(exp.Log, " ") {
 		bad = append(bad, "hook order")
